@@ -8,6 +8,7 @@
 //                                             unsatisfiable flag of every constraint
 //   A <mode> <pen> <ns> (x0 y0 x1 y1)*ns <nc> (sx sy dx dy)*nc    libavoid: mode 0 polyline, 1 orthogonal; rectangles and
 //                                             free connector ends; prints every raw route (hex floats)
+//   P <seed> <k>                              cola::PseudoRandom(seed): k values of getNext()
 // numbers are decimal strings (dyadic => exact).
 #include <cstddef>
 #include <cfloat>
@@ -25,6 +26,7 @@
 #include "libvpsc/solve_VPSC.h"
 #include "libvpsc/exceptions.h"
 #include "libavoid/libavoid.h"
+#include "libcola/pseudorandom.h"
 
 static std::vector<void*> g_kept;
 static unsigned long g_s = 1;
@@ -126,6 +128,13 @@ int main()
                 printf("\n");
             }
             delete router;
+        } else if (tag == 'P') {
+            // P <seed> <k>: cola::PseudoRandom(seed), k calls of getNext()
+            double seed; int k; seed = num(in); in >> k;
+            cola::PseudoRandom pr(seed);
+            printf("P");
+            for (int i = 0; i < k; i++) printf(" %a", pr.getNext());
+            printf("\n");
         } else printf("? %s\n", line.c_str());
         fflush(stdout);
     }
